@@ -443,7 +443,23 @@ structure PArg where
 
 /-- `ast.arguments` + `returns` of a `def`, the class it is a plain method of (if any), and whether
 the module has `from __future__ import annotations`. -/
+/-- what kind of function the `def` statement makes: `def`, `async def` without `yield` (a coroutine
+function), `async def` with `yield` (an async generator), `def` with `yield` (a generator) -/
+inductive FnKind where
+  | plain | coro | asyncGen | gen
+  deriving DecidableEq, Repr, Inhabited
+
+/-- class id standing for `collections.abc.Coroutine` (outside the shared class table; the harness
+registers it under this id) -/
+def coroCls : Cls := 900
+
+/-- `make_coro_type` (value.py:3396) -/
+def coroTy (t : Ty) : Ty := .generic coroCls [.any, .any, t]
+
+def wrapRet (isCoro : Bool) (t : Ty) : Ty := if isCoro then coroTy t else t
+
 structure DefArgs where
+  kind : FnKind := .plain
   posonly : List PArg
   args : List PArg
   vararg : Option PArg
@@ -557,9 +573,11 @@ def fromDefWith (eval : Bool → AnnExpr → Option Res) (d : DefArgs) : Option 
   match defLoop eval d.methodOf 0 [] (zipLongest d.kinded d.alignedDefaults) with
   | none => none
   | some ps =>
+    -- `compute_value_of_function` :418: the annotation (or Any[unannotated]); an `async def` whose body has no
+    -- `yield` (IsGeneratorVisitor :388) is wrapped in Coroutine[Any, Any, …]
     match d.returns with
-    | none => some ⟨ps, .any, false, 0⟩
-    | some a => (eval false a).map fun r => ⟨ps, r.ty, true, r.errs⟩
+    | none => some ⟨ps, wrapRet (d.kind == .coro) .any, false, 0⟩
+    | some a => (eval false a).map fun r => ⟨ps, wrapRet (d.kind == .coro) r.ty, true, r.errs⟩
 
 /-- the parameter as `inspect.signature` reports it -/
 structure IParam where
@@ -573,6 +591,8 @@ structure ISig where
   params : List IParam
   returns : Option AnnExpr
   methodOf : Option Cls
+  /-- `asyncio.iscoroutinefunction(f)` (arg_spec.py:840) -/
+  isAsync : Bool := false
   deriving Repr, Inhabited
 
 /-- `_get_type_for_parameter` (arg_spec.py:521) + the rest of `_make_sig_parameter` :471 (without
@@ -606,8 +626,10 @@ def fromInspect (look : Lookup) (s : ISig) : Option SigOut :=
   match inspLoop look s.methodOf 0 [] s.params with
   | none => none
   | some ps =>
+    -- `from_signature` :424‥436: no annotation → Any[unannotated], else the annotation object read by the
+    -- runtime route; then, **in either case**, `if is_async: returns = make_coro_type(returns)`
     match s.returns with
-    | none => some ⟨ps, .any, false, 0⟩
-    | some a => (rtEval look false a).map fun r => ⟨ps, r.ty, true, r.errs⟩
+    | none => some ⟨ps, wrapRet s.isAsync .any, false, 0⟩
+    | some a => (rtEval look false a).map fun r => ⟨ps, wrapRet s.isAsync r.ty, true, r.errs⟩
 
 end Pya.C13
